@@ -63,9 +63,9 @@ class C11Part(qw.WirePart):
     def field(self, g, off):
         try:
             f = qw.model_query(["FIELDS %s %s" % (g["kind"], g["hex"])])[0]
-            return qw.field_at(f, off) if f.startswith("FIELDS") else "off%d" % off
+            return qw.field_at(f, off) if f.startswith("FIELDS") else "undecodable-image"
         except Exception:
-            return "off%d" % off
+            return "undecodable-image"
 
     def oracle(self, hist, impl_out):
         bad = []
